@@ -67,7 +67,7 @@ CHECKS = {
  "C09": ("sim-raw", "exploration",
    "property-based testing: (generated legal prefix reaching a stream state) × (one item of an RFC 9113 violation / legal-but-unusual catalogue) × probe request; oracle = required reaction class per catalogue row (connection error / at least stream error / tolerated), containment (nothing surfaced, other streams keep working)",
    "80 catalogue rows, each carrying the RFC sentence it encodes, are injected into an h2 server whose target stream was driven into one of seven states (none, open, half-closed remote, closed, reset by the peer, refused for exceeding the limit, open after a completed graceful-shutdown handshake); afterwards a PING barrier and a probe request decide: connection errors need GOAWAY(code≠0) and an ended connection, stream errors need at least RST_STREAM on that stream with the probe still served, legal-but-unusual items need no error at all and a served probe. Only the class of reaction is demanded, never a code.",
-   "Catalogue rows transcribed from RFC 9113 by hand (audit: harness/src/eng_raw.rs). Client-side catalogue (push/response items) is a separate engine.",
+   "Catalogue rows transcribed from RFC 9113 by hand (audit: harness/src/eng_raw.rs). A second engine puts an h2 client under test: 30 rows (PUSH_PROMISE misuse, frames on reserved streams, responses out of place, role-independent framing/SETTINGS/HPACK rows, legal-but-unusual traffic) x 6 states of the client's request, same oracle; forbidden promised streams must never surface as pushes.",
    "DESIGN.md §3 C09, App. A"),
  "C17": ("sim-pair", "exploration",
    "property-based testing: generated exchanges with send_reset(code∈u32)/handle drops at every position; oracle = RST_STREAM count/code/order per stream on the tapped wire against the API log, and error-info comparison (reason, remote/library/user, reset/go-away) on every handle",
